@@ -795,4 +795,184 @@ theorem QInv_init (i : SInput) : QInv i (initC i) := by
 theorem QInv_final (i : SInput) : QInv i (finalC i) :=
   QInv_drainC _ (QInv_runC _ (QInv_init i))
 
+/-! ## the semaphore / log invariant of the embedded M-Conc state -/
+
+/-- the sections of each thread: main's are the `stop()` sections of its abort path, a worker's those of its program -/
+def secsC (i : SInput) (ms : List Section) : Nat → List Section
+  | 0 => ms
+  | w + 1 => match i.workers[w]? with
+    | some wk => segSecs (progOf i w wk).segs
+    | none => []
+
+structure BInv (i : SInput) (s : CSt) (closed : List (Nat × Section)) (cur todo : Section) (rem : Nat → List Seg) : Prop where
+  inv : Inv (i.workers.length + 1) (secsC i s.msecs) s.base closed cur todo rem
+  holder : ∀ h, s.base.sem = some h → h = 0 ∨ h - 1 < s.nsp
+  owners_live : ∀ p ∈ closed, p.1 = 0 ∨ p.1 - 1 < s.nsp
+  main_idle : s.mpc ≠ .abort → s.base.pcs[0]? = some []
+  msecs_nil : s.mpc ≠ .abort → s.mpc ≠ .done → s.msecs = []
+
+def BI (i : SInput) (s : CSt) : Prop := ∃ c cu t r, BInv i s c cu t r
+
+/-- main-side transitions outside the abort path: semaphore, program counters, log and `msecs` untouched -/
+theorem BI.transfer {i : SInput} {s s' : CSt} (h : BI i s) (hm1 : s.mpc ≠ .abort)
+    (hsem : s'.base.sem = s.base.sem) (hpcs : s'.base.pcs = s.base.pcs) (hlog : s'.base.log = s.base.log)
+    (hms : s'.msecs = s.msecs) (hnsp : s.nsp ≤ s'.nsp) (hm' : s'.mpc ≠ .abort)
+    (hmd : s'.mpc ≠ .done → s.mpc ≠ .done) : BI i s' := by
+  obtain ⟨c, cu, t, r, h⟩ := h
+  refine ⟨c, cu, t, r, ?_, ?_, ?_, ?_, ?_⟩
+  · rw [hms]; exact Inv_congr h.inv hsem hpcs hlog
+  · intro k hk; rw [hsem] at hk; rcases h.holder k hk with h1 | h1
+    · left; exact h1
+    · right; omega
+  · intro p hp; rcases h.owners_live p hp with h1 | h1
+    · left; exact h1
+    · right; omega
+  · intro _; rw [hpcs]; exact h.main_idle hm1
+  · intro _ h2; rw [hms]; exact h.msecs_nil hm1 (hmd h2)
+
+theorem BI_finishMain {i : SInput} {s : CSt} (h : BI i s) (r : MainRes) (hm : s.mpc ≠ .abort) : BI i (finishMain s r) :=
+  h.transfer hm rfl rfl rfl rfl (Nat.le_refl _) (by simp) (by simp)
+
+theorem BI_loopHead {i : SInput} {s : CSt} (h : BI i s) (hm : s.mpc ≠ .abort) (hd : s.mpc ≠ .done) : BI i (loopHead s) := by
+  unfold loopHead
+  split
+  · exact BI_finishMain h _ hm
+  · exact h.transfer hm rfl rfl rfl rfl (Nat.le_refl _) (by simp) (fun _ => hd)
+
+theorem secsC_update (i : SInput) (p : List Section) :
+    (fun t => if t = 0 then p else secsC i [] t) = secsC i p := by
+  funext t
+  cases t <;> simp [secsC]
+
+/-- entering the `except:` clause -/
+theorem BI_abortMain {i : SInput} {s : CSt} (h : BI i s) (c : Cause) (hm : s.mpc ≠ .abort) (hd : s.mpc ≠ .done) :
+    BI i (abortMain i s c) := by
+  unfold abortMain
+  split
+  · exact (BI_finishMain (r := .raised c)
+      (h.transfer (s' := { s with flags := setFlags s.flags s.reg, late := s.reg.filter (firstStepPending s) })
+        hm rfl rfl rfl rfl (Nat.le_refl _) hm (fun _ => hd)) hm)
+  · split
+    · exact BI_finishMain h _ hm
+    · obtain ⟨cl, cu, t, r, h⟩ := h
+      have hms := h.msecs_nil hm hd
+      have hinv := h.inv
+      rw [hms] at hinv
+      have := inv_extend hinv 0 (by omega) rfl (h.main_idle hm) (stopSections i.mfaults 0 s.reg.length)
+      rw [secsC_update] at this
+      exact ⟨cl, cu, t, _, this, h.holder, h.owners_live, by simp, by simp⟩
+
+theorem BI_nextSpawn {i : SInput} {s : CSt} (h : BI i s) (hm : s.mpc ≠ .abort) (hd : s.mpc ≠ .done) (k : Nat) :
+    BI i (nextSpawn i s k) := by
+  unfold nextSpawn
+  split
+  · exact h.transfer hm rfl rfl rfl rfl (Nat.le_refl _) (by simp) (fun _ => hd)
+  · split
+    · exact BI_abortMain h _ hm hd
+    · exact BI_loopHead h hm hd
+
+theorem stepThread_pcs_other (s : St) (t j : Nat) (hne : j ≠ t) : (stepThread s t).pcs[j]? = s.pcs[j]? := by
+  rcases stepThread_cases s t with he | ⟨a, rest, _, hpcs, _⟩
+  · rw [he]
+  · rw [hpcs, List.getElem?_set]
+    have : ¬ t = j := fun hc => hne hc.symm
+    simp [this]
+
+/-- a thread of the embedded M-Conc state steps (a started worker, or main inside its abort path) -/
+theorem BI_baseStep {i : SInput} {s : CSt} (h : BI i s) (t : Nat) (ht : t = 0 ∨ t - 1 < s.nsp) (fl : List Bool)
+    (hmain : t = 0 → s.mpc = .abort) : BI i { s with base := stepThread s.base t, flags := fl } := by
+  obtain ⟨c, cu, td, r, h⟩ := h
+  obtain ⟨c', cu', td', r', hinv, hcl⟩ := step_preserves' t h.inv
+  refine ⟨c', cu', td', r', hinv, ?_, ?_, ?_, h.msecs_nil⟩
+  · intro k hk
+    rcases stepThread_sem s.base t k hk with h1 | h1
+    · exact h.holder k h1
+    · subst h1; exact ht
+  · intro p hp
+    rcases hcl with rfl | rfl
+    · exact h.owners_live p hp
+    · rcases List.mem_append.mp hp with hp | hp
+      · exact h.owners_live p hp
+      · simp at hp; subst hp; exact ht
+  · intro hm
+    by_cases ht0 : t = 0
+    · exact absurd (hmain ht0) hm
+    · show (stepThread s.base t).pcs[0]? = some []
+      rw [stepThread_pcs_other s.base t 0 (fun hc => ht0 hc.symm)]
+      exact h.main_idle hm
+
+/-- **every step preserves the semaphore / log invariant** -/
+theorem BI_stepC {i : SInput} {s : CSt} (h : BI i s) (hq : QInv i s) (t : Nat) : BI i (stepC i s t) := by
+  unfold stepC
+  split
+  · split
+    · unfold stepMain
+      split
+      · rename_i k hk
+        have hk1 := (hq.mpc_spawn k hk).1
+        exact BI_nextSpawn (h.transfer (s' := { s with nsp := k + 1, reg := s.reg ++ [k] }) (by simp [hk]) rfl rfl rfl rfl
+          (by show s.nsp ≤ k + 1; omega) (by simp [hk]) (fun _ => by simp [hk]))
+          (by simp [hk]) (by simp [hk]) _
+      · rename_i hg
+        split
+        · exact BI_abortMain (h.transfer (s' := { s with ngets := s.ngets + 1 }) (by simp [hg]) rfl rfl rfl rfl (Nat.le_refl _) (by simp [hg]) (fun _ => by simp [hg]))
+            _ (by simp [hg]) (by simp [hg])
+        · split
+          · exact h
+          · rename_i x q hq
+            have h1 : BI i { s with base := { s.base with queue := q }, ngets := s.ngets + 1 } :=
+              h.transfer (by simp [hg]) rfl rfl rfl rfl (Nat.le_refl _) (by simp [hg]) (fun _ => by simp [hg])
+            split
+            · exact h1.transfer (by simp [hg]) rfl rfl rfl rfl (Nat.le_refl _) (by simp) (fun _ => by simp [hg])
+            · exact h1.transfer (by simp [hg]) rfl rfl rfl rfl (Nat.le_refl _) (by simp) (fun _ => by simp [hg])
+            · exact BI_loopHead h1 (by simp [hg]) (by simp [hg])
+            · exact h1.transfer (by simp [hg]) rfl rfl rfl rfl (Nat.le_refl _) (by simp) (fun _ => by simp [hg])
+      · rename_i w hw
+        split
+        · exact BI_loopHead (h.transfer (s' := { s with joined := s.joined ++ [w] }) (by simp [hw]) rfl rfl rfl rfl (Nat.le_refl _) (by simp [hw]) (fun _ => by simp [hw]))
+            (by simp [hw]) (by simp [hw])
+        · exact h
+      · rename_i e he
+        have h1 : BI i { s with sink := s.sink ++ [(e, i.mfaults.contains s.nstatus)], nstatus := s.nstatus + 1 } :=
+          h.transfer (by simp [he]) rfl rfl rfl rfl (Nat.le_refl _) (by simp [he]) (fun _ => by simp [he])
+        dsimp only
+        split
+        · exact BI_abortMain h1 _ (by simp [he]) (by simp [he])
+        · exact BI_loopHead h1 (by simp [he]) (by simp [he])
+      · rename_i ha
+        have h1 : BI i { s with base := stepThread s.base 0 } := BI_baseStep h 0 (Or.inl rfl) s.flags (fun _ => ha)
+        dsimp only
+        split
+        · rename_i hemp
+          obtain ⟨c, cu, td, r, h1⟩ := h1
+          have hlen : 0 < (stepThread s.base 0).pcs.length := by
+            have := h1.inv.len; simp at this; omega
+          have hpc0 : (stepThread s.base 0).pcs[0]? = some [] := by
+            simp only [List.getElem?_eq_getElem hlen] at hemp ⊢
+            simpa using hemp
+          exact ⟨c, cu, td, r, h1.inv, h1.holder, h1.owners_live, fun _ => hpc0, by simp⟩
+        · exact h1
+      · exact h
+    · exact h
+  · split
+    · rename_i ht hlt
+      exact BI_baseStep h t (Or.inr hlt) _ (fun hc => absurd hc ht)
+    · exact h
+
+theorem BI_runC {i : SInput} (sched : List Nat) : ∀ {s : CSt}, BI i s → QInv i s → BI i (runC i s sched) := by
+  induction sched with
+  | nil => intro s h _; exact h
+  | cons t rest ih => intro s h hq; exact ih (BI_stepC h hq t) (QInv_stepC hq t)
+
+theorem BI_drainC {i : SInput} : ∀ (fuel : Nat) {s : CSt}, BI i s → QInv i s → BI i (drainC i fuel s) := by
+  intro fuel
+  induction fuel with
+  | zero => intro s h _; exact h
+  | succ f ih =>
+    intro s h hq
+    unfold drainC
+    split
+    · exact h
+    · exact ih (BI_stepC h hq _) (QInv_stepC hq _)
+
 end TTV.Conc
